@@ -338,7 +338,10 @@ func c09Run(tp *core.Tape, e *core.Env) {
 	}
 	// the whole command: `kvass sidecar` (its real start path) started over the store a previous
 	// process left serves exactly that assignment through its API, and again after B
-	{
+	fileModeCmd := tp.Bool("command_file_mode", 1, 2)
+	pushAtAPIUp := tp.Bool("refused_push_as_soon_as_the_api_is_up", 1, 2)
+	cmdLevel := func() {
+
 		d := filepath.Join(base, "command")
 		copyDir(tmpl, filepath.Join(d, "store"))
 		want := func(as map[string][]*target.Target) string {
@@ -363,11 +366,42 @@ func c09Run(tp *core.Tape, e *core.Env) {
 			sort.Strings(out)
 			return strings.Join(out, ","), nil
 		}
-		fileMode := tp.Bool("command_file_mode", 1, 2)
+		fileMode := fileModeCmd
 		opt := sidecarsim.Options{Dir: d}
 		if fileMode {
 			opt.ConfigFile = filepath.Join(d, "prometheus.env.yaml")
 			_ = os.WriteFile(opt.ConfigFile, []byte(NodeConfig), 0o644)
+		}
+		if pushAtAPIUp {
+			// the coordinator's next update (B) arrives the moment the restarted sidecar's API answers, and is
+			// refused (its Prometheus does not reload yet): what the sidecar then holds, and what a further
+			// restart resumes, is A (the last acknowledged) or B - never a mixture
+			o2 := opt
+			o2.NoSettle = true
+			s0 := sidecarsim.Start(o2)
+			if s0.LoadErr != nil {
+				e.Violate("start-fails", "fault=none,level=command", "the sidecar command does not start over the store of acknowledged A: %v", s0.LoadErr)
+				return
+			}
+			s0.ReloadErr = fmt.Errorf("prometheus is still starting (injected)")
+			if !fileMode {
+				_ = s0.PushConfig(NodeConfig)
+			}
+			perr := s0.PostTargets(&shard.UpdateTargetsRequest{Targets: B})
+			s0.ReloadErr = nil
+			sidecarsim.Settle()
+			e.Fault("refused_push_at_api_up")
+			got, err := served(s0)
+			if err != nil || (got != want(A) && got != want(B)) {
+				e.Violate("resumes-neither", "fault=refused_push_at_api_up,level=command", "update B refused (%v) right after the restarted sidecar's API came up: it now serves neither A nor B: err=%v\n serves %s\n      A %s\n      B %s", perr != nil, err, clip(got), clip(want(A)), clip(want(B)))
+				s0.Stop()
+				return
+			}
+			s0.Stop()
+			if perr == nil {
+				// accepted after all: B is the acknowledged assignment now; continue from a store holding B
+				A = B
+			}
 		}
 		sc := sidecarsim.Start(opt)
 		defer func() { sc.Stop() }()
@@ -399,6 +433,13 @@ func c09Run(tp *core.Tape, e *core.Env) {
 			return
 		}
 		e.Probe("command_restart_checked")
+	}
+	if problem := sidecarsim.InBubble(e.T, cmdLevel); problem != "" {
+		e.Undecided("C09 command level: %s", problem)
+		return
+	}
+	if e.Failed() {
+		return
 	}
 	e.Key("A="+kindNames[ka], "B="+kindNames[kb], fmt.Sprintf("old=%v", oldFormat))
 
